@@ -197,7 +197,8 @@ namespace cnl {
             template<typename Rhs>
             [[nodiscard]] constexpr auto operator()(Rhs const& rhs) const
             {
-                return has_most_negative_number<Rhs>::value && rhs < -std::numeric_limits<Rhs>::max();
+                using traits = operator_overflow_traits<minus_op, Rhs>;
+                return has_most_negative_number<typename traits::result>::value && rhs < -traits::max();
             }
         };
 
@@ -206,7 +207,8 @@ namespace cnl {
             template<typename Rhs>
             [[nodiscard]] constexpr auto operator()(Rhs const& rhs) const
             {
-                return !numbers::signedness_v<Rhs> && rhs;
+                using traits = operator_overflow_traits<minus_op, Rhs>;
+                return !numbers::signedness_v<typename traits::result> && rhs;
             }
         };
 #if defined(_MSC_VER)
